@@ -145,6 +145,22 @@ def run(ck):
     ck.notes["rule"] = ("one evaluation = one case of MapLaws.tla executed on the real library under the controlled "
                         "scheduler, validated by TLC against the law table; distinct = distinct (params, projected "
                         "trace) pairs; non-trivial = a user function was called or more than two threads took part")
+    # directed (line granularity): the input is completed by another thread at the very instant the chain is being
+    # built - the completion lands at every point of the construction (and of the attachment of the second stage)
+    swept = []
+    for inp in (0, 1):
+        for stages in ([[0, RET, ABSENT], [0, RET, ABSENT]], [[1, FUT_V, ABSENT], [0, RET, RET]], [[0, RET, RET]]):
+            t = task(rng, 1, 1, inp, 1, stages, line=True)
+            t["params"].update(d_in=0, early=True, proxy_input=False, in_except=False, orig_cancelled_error=False,
+                               orig_base_exception=False)
+            # (building one f_map stage takes about 200 source lines of the library; the second stage attaches itself to
+            #  the first one's future around step 400)
+            for n in range(150, 460, 3 if quick else 1) if len(stages) > 1 else range(1, 240, 3 if quick else 1):
+                for a, b in ((("main", "comp1"),) if len(stages) > 1 else (("main", "comp1"), ("comp1", "main"))):
+                    swept.append({"scen": "maplaws", "params": dict(t["params"]),
+                                  "strat": ["phases", [[a, n], [b, 10000], [a, 10000]]], "gran": "line",
+                                  "facts": dict(facts_of(t["params"]), directed=True)})
+    ck.run_and_validate(swept, TRACE, nontrivial=lambda t, r: True)
     ck.run_and_validate(tasks, TRACE, nontrivial=nontrivial)
     ck.assumptions += [
         "user functions are injective taggers and every exception object has its own id, so outcome terms "
